@@ -197,3 +197,12 @@ Print Assumptions C18_pong.
 Print Assumptions C18_pong_one_word.
 Print Assumptions C18_pings.
 Print Assumptions C18_ping_tick.
+
+(* generated-code tie *)
+(* Gen/GoFuncs.v holds the Gallina TRANSLATION of the Go body of hasPort, regenerated from the
+   source on every run (translator/go2coq.go); it is equal to the model has_port
+   (Proofs/GenEqNick.v). *)
+From Verif Require Import GoFuncs GenEqNick.
+Theorem gen_C18_hasPort : forall s, go_client_hasPort s = Ok (has_port s).
+Proof. exact go_hasPort_eq. Qed.
+Print Assumptions gen_C18_hasPort.
